@@ -566,6 +566,8 @@ func judgeProxy(w *proxyWorld, res *Result) {
 		judgeRange(w, res)
 	case "relay":
 		judgeRelay(w, res)
+	case "keys":
+		judgeKeys(w, res)
 	}
 	for _, ex := range w.exch {
 		if ex.Complete {
